@@ -22,13 +22,35 @@ RULE = ("two streams. (1) configs: random ASA configs built from a structured de
         "no-break space, other protocols/syntaxes). non-trivial = a config with at least one group-object member or alias "
         "member, or a port spec with an operator other than eq/bare. Not generated: blank/comment lines inside a group body, "
         "indented or upper-case group headers, 'object-group  network' with two blanks after 'object-group', non-ASCII "
-        "digits and '_' in numbers (int() accepts them, the model's int() does not), names lines the ASAName factory rejects.")
+        "digits and '_' in numbers (int() accepts them, the model's int() does not), names lines the ASAName factory rejects. "
+        "FURTHER ENTRY POINTS (channel asax; 500 pairs + 300 configs in quick): l4pair = two L4Objects compared with == and != "
+        "(spellings of the same port set such as 'lt 3' / 'range 1 2', 'neq 1' / 'gt 1', a named service and its number, the same "
+        "spec under tcp and udp, a malformed second spec) and repr() of the first; l4guard = port_spec None / int / list and == against "
+        "an int; tables = the three asa_* tables of a config parsed with syntax ios / nxos / iosxr (and asa); groups = a config (about "
+        "a third with a block PERM that has the members of another block in another order, a seventh with an invalid reference or "
+        "line) and a second config (the same, shifted by one line, the same headers with other members, unrelated): network_count "
+        "of every group object, and the matrices of ==, !=, hash equality and hash_children equality of the first config's objects "
+        "against the objects of both; pseq = 2..6 L4Object constructions carried out back to back inside ONE implementation call, each "
+        "answer compared with the model and judged on its own: every service name whose meaning depends on the protocol (rtsp: 554 vs "
+        "5004, all eight operator shapes; the 38 tcp-only and 22 udp-only names, read from the tables, three shapes each in quick and all "
+        "eight in thorough), the same spec string under tcp then udp and the reverse (376 fixed sequences in quick), plus 250 random sequences mixing them with numeric specs, other names and an "
+        "invalid spec in between (state carried from one construction to the next is observed whatever the worker scheduling). "
+        "Anchored statements executed by the quick run: 148 of 152 (was 130); the 4 left are the "
+        "second `elif \"neq \" in` branch of L4Object.__init__, which the first test shadows (notes/coverage/C20.json).")
 LEVEL_TEXT = ("Theorems (Lean 4, all inputs): for every acyclic reference graph (any rank function) the model of network_strings "
               "returns exactly the flattening of the members in config order with aliases resolved and the flattening is unique; "
               "name/group tables answer with the last definition of a key and the access-list table with all defining lines in "
               "order, nothing else; each port operator over numeric operands yields exactly its subset of 1..65535 in strictly "
               "ascending order and every bound outside its range is rejected; every named service of the generated "
-              "ASA_TCP_PORTS/ASA_UDP_PORTS tables lies in 1..65535 and resolves in every operator. The model is tied to "
+              "ASA_TCP_PORTS/ASA_UDP_PORTS tables lies in 1..65535 and resolves in every operator. Further entry points "
+              "(Model/AsaX.lean): l4_eq_iff and l4_eq_denotes (two specifications within their bounds on one protocol give == objects "
+              "exactly when they denote the same port set), l4_repr_unavailable (repr() raises AttributeError for every object: the code "
+              "reads a CiscoRange attribute that does not exist - recorded as it is, proposed repair notes/proposed-fixes/C20-2.patch), "
+              "table_access_iff (the asa_* tables are served under syntax asa only), group_objects_eq (== by line number and header text, "
+              "reflexive, symmetric, != its negation, the group objects of one config pairwise different), count_and_hash_children "
+              "(network_count = length of network_strings; equal hash_children iff equal network_strings, no hash collision assumed), "
+              "pseq_history_free (in a sequence of constructions every answer is that of the construction alone). "
+              "The model is tied to "
               "L4Object, ConfigList.asa_* and ASAObjGroupNetwork.network_strings by differential runs on every check.")
 LEVEL_NOTE = ("Trusted: Lean kernel; axioms propext/Classical.choice/Quot.sound only; the correspondence harness; hand-written "
               "token matchers standing in for the five regular expressions of the source; model of int() restricted to ASCII. "
@@ -346,6 +368,173 @@ def cfg_cases(rng, tier):
         yield mk_cfg(desc, render(desc, rng), invalid)
 
 
+# ------------------------------------------------------------------ further entry points (channel `asax`)
+L4_GUARDS = ["spec-none", "spec-int", "spec-list", "eq-int"]
+OTHER_SYNTAX = ["ios", "nxos", "iosxr"]
+
+
+def mk_l4pair(c1, c2, origin="gen"):
+    e = wire.enc_str
+    return {"kind": "l4pair", "a": {k: c1.get(k) for k in ("proto", "syntax", "spec", "want")},
+            "b": {k: c2.get(k) for k in ("proto", "syntax", "spec", "want")}, "_origin": origin,
+            "req": wire.req("asax", "l4", e(c1["proto"]), e(c1["syntax"]), e(c1["spec"]), e(c2["proto"]), e(c2["syntax"]), e(c2["spec"]))}
+
+
+def mk_l4guard(g, origin="gen"):
+    return {"kind": "l4guard", "g": g, "req": wire.req("asax", "guard", g), "_origin": origin}
+
+
+def mk_tables(syntax, lines, origin="gen"):
+    return {"kind": "tables", "syntax": syntax, "lines": lines, "_origin": origin,
+            "req": wire.req("asax", "tables", wire.enc_str(syntax))}
+
+
+def mk_groups(desc, lines, lines2, how, origin="gen"):
+    return {"kind": "groups", "desc": desc, "lines": lines, "lines2": lines2, "how": how, "_origin": origin,
+            "req": wire.req("asax", "groups", wire.enc_strs(lines), wire.enc_strs(lines2))}
+
+
+def mk_pseq(elems, origin="gen"):
+    """elems: port cases (dicts with proto / spec / want); all are built back to back inside ONE impl() call"""
+    e = wire.enc_str
+    fields = []
+    for c in elems:
+        fields += [e(c["proto"]), e(c["spec"])]
+    return {"kind": "pseq", "elems": [{k: c.get(k) for k in ("proto", "spec", "want")} for c in elems], "_origin": origin,
+            "req": wire.req("asax", "pseq", *fields)}
+
+
+def special_names():
+    """service names whose meaning depends on the protocol: a different number in the two tables, or in one table only"""
+    t = service_tables()
+    differ = sorted(n for n in t["tcp"] if n in t["udp"] and t["tcp"][n] != t["udp"][n])
+    tcp_only = sorted(n for n in t["tcp"] if n not in t["udp"])
+    udp_only = sorted(n for n in t["udp"] if n not in t["tcp"])
+    return differ, tcp_only, udp_only
+
+
+def pelem(proto, op, operands, spec=None):
+    """one construction with the property's verdict; a name the protocol's table does not have is invalid there"""
+    tbl = service_tables()[proto]
+    words = [str(o) for o in operands]
+    if spec is None:
+        spec = words[0] if op == "bare" else op + " " + " ".join(words)
+    if any(isinstance(o, str) and o not in tbl for o in operands):
+        want = "reject"
+    else:
+        want = denote(op, [tbl[o] if isinstance(o, str) else o for o in operands])
+    return mk_port(proto, spec, want=want, op=op, operands=words)
+
+
+def _spec_shapes(name):
+    return [("eq", [name]), ("bare", [name]), ("neq", [name]), ("lt", [name]), ("gt", [name]), ("range", [1, name]),
+            ("range", [name, 65535]), ("range", [name, name])]
+
+
+def pseq_cases(rng, tier):
+    differ, tcp_only, udp_only = special_names()
+    names = differ + tcp_only + udp_only
+    if tier != "search":
+        # every protocol-dependent name: the same spec string under tcp then udp, and the reverse; all eight operator
+        # shapes for a name with two meanings, three (rotating over the eight) for a name only one table has
+        for i, n in enumerate(names):
+            shapes = _spec_shapes(n)
+            if n not in differ and tier == "quick":
+                shapes = [shapes[(i + k) % len(shapes)] for k in (0, 3, 5)]
+            for op, operands in shapes:
+                for order in (("tcp", "udp"), ("udp", "tcp")):
+                    yield mk_pseq([pelem(order[0], op, operands), pelem(order[1], op, operands)])
+    count = {"quick": 250, "thorough": 4000, "search": 400}[tier]
+    both = sorted(set(service_tables()["tcp"]) & set(service_tables()["udp"]))
+    for _ in range(count):
+        n = rng.choice(differ * 4 + tcp_only + udp_only) if rng.random() < 0.8 else rng.choice(both)
+        op, operands = rng.choice(_spec_shapes(n))
+        first = rng.choice(["tcp", "udp"])
+        other = "udp" if first == "tcp" else "tcp"
+        seq = [pelem(first, op, operands)]
+        for _ in range(rng.choice([0, 1, 1, 2, 3])):
+            r = rng.random()
+            if r < 0.4:
+                k = rng.choice(BOUNDS + [22, 554, 5004, 514])
+                o2 = rng.choice(["eq", "bare", "neq", "lt", "gt"])
+                seq.append(pelem(rng.choice(["tcp", "udp"]), o2, [k]))
+            elif r < 0.6:
+                seq.append(mk_port(rng.choice(["tcp", "udp"]), rng.choice(MALFORMED_SPECS), want=None, malformed=True))
+            elif r < 0.8:
+                n2 = rng.choice(names)
+                o2, ops2 = rng.choice(_spec_shapes(n2))
+                seq.append(pelem(rng.choice(["tcp", "udp"]), o2, ops2))
+            else:
+                seq.append(pelem(first, op, operands))
+        seq.insert(rng.randrange(1, len(seq) + 1), pelem(other, op, operands))
+        if rng.random() < 0.4:
+            seq.append(pelem(first, op, operands))
+        yield mk_pseq(seq[:6])
+
+
+def _same_set_spellings(rng, proto):
+    """two spellings that (mostly) denote the same port set"""
+    tbl = service_tables()[proto]
+    n = rng.choice(sorted(tbl))
+    v = tbl[n]
+    k = rng.choice([1, 2, 80, 443, 65534, 65535, rng.randint(1, 65535)])
+    return rng.choice([
+        (("eq", [n]), ("eq", [v])), (("bare", [n]), ("eq", [v])), (("eq", [k]), ("bare", [k])), (("range", [k, k]), ("eq", [k])),
+        (("lt", [3]), ("range", [1, 2])), (("gt", [65533]), ("range", [65534, 65535])), (("neq", [n]), ("neq", [v])),
+        (("lt", [2]), ("eq", [1])), (("gt", [65534]), ("bare", [65535])), (("range", [1, 65535]), ("gt", [0])),
+        (("neq", [1]), ("gt", [1])), (("neq", [65535]), ("lt", [65535])), (("range", [k, min(65535, k + 1)]), ("range", [k, min(65535, k + 2)])),
+        (("eq", [k]), ("eq", [k % 65535 + 1])), (("lt", [k]), ("lt", [k])), (("gt", [k]), ("lt", [k])),
+    ])
+
+
+def x_cases(rng, tier):
+    if tier != "search":
+        for g in L4_GUARDS:
+            yield mk_l4guard(g)
+        for syn in OTHER_SYNTAX + ["asa"]:
+            yield mk_tables(syn, ["name 1.1.1.1 foo", "object-group network A", " network-object host foo",
+                                  "access-list X extended permit ip any any"])
+    n = {"quick": 500, "thorough": 6000, "search": 600}[tier]
+    for i in range(n):
+        pa = rng.choice(["tcp", "udp"])
+        pb = pa if rng.random() < 0.8 else rng.choice(["tcp", "udp"])
+        (op1, o1), (op2, o2) = _same_set_spellings(rng, pa)
+        tb = service_tables()[pb]
+        if any(isinstance(o, str) and o not in tb for o in o2):
+            pb = pa
+        c1 = port_case(rng, pa, op1, o1, fancy=rng.random() < 0.3)
+        c2 = port_case(rng, pb, op2, o2, fancy=rng.random() < 0.3)
+        if rng.random() < 0.06:
+            c2 = mk_port(pb, rng.choice(MALFORMED_SPECS), want=None)
+        yield mk_l4pair(c1, c2)
+    m = {"quick": 300, "thorough": 4000, "search": 300}[tier]
+    for i in range(m):
+        invalid = rng.choice(["missing", "self", "badline"]) if i % 7 == 6 else None
+        desc = gen_desc(rng, invalid)
+        if rng.random() < 0.3 and desc["blocks"]:
+            # a group with the members of another one in another order (same entries, different flattening)
+            src = rng.choice(desc["blocks"])
+            ms = [list(m) for m in src["members"]]
+            rng.shuffle(ms)
+            desc["blocks"].insert(rng.randrange(len(desc["blocks"]) + 1), {"name": "PERM", "indent": 1, "members": ms})
+        lines = render(desc, rng)
+        how = rng.choice(["same", "shift", "edit", "edit", "other", "syntax"])
+        if how == "syntax":
+            yield mk_tables(rng.choice(OTHER_SYNTAX), lines)
+            continue
+        if how == "same":
+            lines2 = list(lines)
+        elif how == "shift":
+            lines2 = [rng.choice(["!", "hostname fw2"])] + list(lines)
+        elif how == "edit":
+            # same header lines at the same line numbers, other members
+            lines2 = [("  network-object host 9.9.9.9" if (ln[:1] == " " and rng.random() < 0.5) else ln) for ln in lines]
+        else:
+            d2 = gen_desc(rng, None)
+            lines2 = render(d2, rng)
+        yield mk_groups(desc, lines, lines2, how)
+
+
 def from_corpus(c):
     if c["kind"] == "port":
         return mk_port(c["proto"], c["spec"], c.get("syntax", "asa"), c.get("want"), "corpus")
@@ -355,9 +544,18 @@ def from_corpus(c):
 def cases(rng, tier):
     yield from port_cases(rng, tier)
     yield from cfg_cases(rng, tier)
+    import random
+    yield from x_cases(random.Random(rng.getrandbits(64) ^ 0xC20), tier)
+    yield from pseq_cases(random.Random(rng.getrandbits(64) ^ 0x5E9), tier)
 
 
 def neighbours(case, rng):
+    if case["kind"] == "pseq":
+        yield from pseq_cases(rng, "search")
+        return
+    if case["kind"] in ("l4pair", "l4guard", "tables", "groups"):
+        yield from x_cases(rng, "search")
+        return
     if case["kind"] == "port":
         for _ in range(300):
             s = list(case["spec"])
@@ -373,6 +571,14 @@ def neighbours(case, rng):
 
 
 def nontrivial(case):
+    if case["kind"] == "pseq":
+        return len({e["proto"] for e in case["elems"]}) == 2
+    if case["kind"] == "l4pair":
+        return case["a"]["spec"].strip() != case["b"]["spec"].strip()
+    if case["kind"] in ("l4guard", "tables"):
+        return True
+    if case["kind"] == "groups":
+        return len(case["desc"]["blocks"]) >= 2
     if case["kind"] == "port":
         return case.get("op") in ("range", "lt", "gt", "neq")
     return any(m[0] == "grp" or (m[0] in ("host", "net") and not m[1][0].isdigit())
@@ -380,6 +586,16 @@ def nontrivial(case):
 
 
 def describe(case):
+    if case["kind"] == "pseq":
+        return {"constructions in one process": [[e["proto"], e["spec"]] for e in case["elems"]]}
+    if case["kind"] == "l4pair":
+        return {"a": {k: case["a"][k] for k in ("proto", "syntax", "spec")}, "b": {k: case["b"][k] for k in ("proto", "syntax", "spec")}}
+    if case["kind"] == "l4guard":
+        return {"call": case["g"]}
+    if case["kind"] == "tables":
+        return {"syntax": case["syntax"], "config": case["lines"]}
+    if case["kind"] == "groups":
+        return {"config": case["lines"], "second config": case["lines2"], "relation": case["how"]}
     if case["kind"] == "port":
         return {"protocol": case["proto"], "syntax": case["syntax"], "port_spec": case["spec"]}
     return {"config": case["lines"], "invalid": case.get("invalid")}
@@ -398,6 +614,18 @@ def _depth(desc):
 
 
 def buckets(case, ans):
+    if case["kind"] == "pseq":
+        es = case["elems"]
+        same = any(a["spec"] == b["spec"] and a["proto"] != b["proto"] for i, a in enumerate(es) for b in es[i + 1:])
+        return ["pseq:len:%d" % len(es), "pseq:same-spec-under-both-protocols:%s" % same, "pseq:first:" + es[0]["proto"]]
+    if case["kind"] == "l4pair":
+        return ["l4pair:answer:" + ans.split("|")[0][:30] + ("/" + "".join(ans.split("|")[1:3]) if ans.startswith("ok") else "")]
+    if case["kind"] == "l4guard":
+        return ["l4guard:" + case["g"]]
+    if case["kind"] == "tables":
+        return ["tables:syntax:" + case["syntax"]]
+    if case["kind"] == "groups":
+        return ["groups:second-config:" + case["how"], "groups:objects:%d" % min(9, len(case["desc"]["blocks"]))]
     if case["kind"] == "port":
         out = ["port:op:" + str(case.get("op", "malformed")), "port:proto:" + case["proto"]]
         out.append("port:answer:" + ("ok" if ans.startswith("ok") else ans))
@@ -424,8 +652,100 @@ def _err(e):
     return "err:" + type(e).__name__
 
 
+def _tf(b):
+    assert b is True or b is False, b
+    return "T" if b else "F"
+
+
+def _impl_x(case):
+    from ciscoconfparse2.ccp_util import L4Object
+    from ciscoconfparse2 import CiscoConfParse
+    from ciscoconfparse2.models_asa import ASAObjGroupNetwork
+    kind = case["kind"]
+    if kind == "pseq":
+        out = []
+        for e in case["elems"]:
+            try:
+                out.append("ok " + enc_runs(L4Object(protocol=e["proto"], port_spec=e["spec"], syntax="asa").port_list))
+            except RecursionError:
+                raise
+            except Exception as exc:
+                out.append(_err(exc))
+        return "|".join(out)
+    if kind == "l4guard":
+        try:
+            if case["g"] == "eq-int":
+                L4Object(protocol="tcp", port_spec="eq 80", syntax="asa") == 5
+            else:
+                L4Object(protocol="tcp", syntax="asa", port_spec={"spec-none": None, "spec-int": 80, "spec-list": ["eq", "80"]}[case["g"]])
+            return "ok"
+        except Exception as e:
+            return _err(e)
+    if kind == "l4pair":
+        a, b = case["a"], case["b"]
+        try:
+            x = L4Object(protocol=a["proto"], port_spec=a["spec"], syntax=a["syntax"])
+        except Exception as e:
+            return _err(e)
+        try:
+            y = L4Object(protocol=b["proto"], port_spec=b["spec"], syntax=b["syntax"])
+        except Exception as e:
+            return "second:" + _err(e)
+        try:
+            r = wire.enc_str(repr(x))
+        except Exception as e:
+            r = _err(e)
+        return "|".join(["ok", _tf(x == y), _tf(x != y), r])
+    if kind == "tables":
+        parse = CiscoConfParse(list(case["lines"]), syntax=case["syntax"])
+        res = []
+        for attr in ("asa_object_group_names", "asa_object_group_network", "asa_access_list"):
+            try:
+                getattr(parse.config_objs, attr)
+                res.append("ok")
+            except Exception as e:
+                res.append(_err(e))
+        return res[0] if len(set(res)) == 1 else "/".join(res)
+    if kind == "groups":
+        def objs(lines):
+            parse = CiscoConfParse(list(lines), syntax="asa", factory=True)
+            return parse, [o for o in parse.objs if isinstance(o, ASAObjGroupNetwork)]
+        p1, A = objs(case["lines"])
+        p2, B = objs(case["lines2"])
+        every = A + B
+        counts = []
+        for a in A:
+            try:
+                counts.append(str(a.network_count))
+            except Exception as e:
+                counts.append(_err(e))
+            if hash(a) != a.get_unique_identifier():
+                counts[-1] += "~hash-is-not-the-unique-identifier"
+
+        def hc(o):
+            try:
+                return o.hash_children
+            except Exception:
+                return None
+        hcs = {id(o): hc(o) for o in every}
+
+        def hceq(a, b):
+            # `a.hash_children == b.hash_children`: either side raises what network_strings raises
+            if hcs[id(a)] is None or hcs[id(b)] is None:
+                return "E"
+            return _tf(hcs[id(a)] == hcs[id(b)])
+        return "|".join([",".join(counts),
+                         ",".join("".join(_tf(a == b) for b in every) for a in A),
+                         ",".join("".join(_tf(a != b) for b in every) for a in A),
+                         ",".join("".join(_tf(hash(a) == hash(b)) for b in every) for a in A),
+                         ",".join("".join(hceq(a, b) for b in every) for a in A)])
+    raise AssertionError(kind)
+
+
 def impl(case):
     quiet_ccp()
+    if case["kind"] in ("l4pair", "l4guard", "tables", "groups", "pseq"):
+        return _impl_x(case)
     if case["kind"] == "port":
         from ciscoconfparse2.ccp_util import L4Object
         try:
@@ -467,6 +787,8 @@ def impl(case):
 
 
 def compare(case, impl_ans, model_ans):
+    if case["kind"] in ("l4pair", "l4guard", "tables", "groups", "pseq"):
+        return impl_ans == model_ans
     # the `.networks` rendering after '#' is checked by the oracle only (IPv4Obj is C11's subject)
     return impl_ans.split("#")[0] == model_ans
 
@@ -525,7 +847,88 @@ def ref_networks(strings):
     return ",".join(out)
 
 
+def _oracle_x(case, ans):
+    kind = case["kind"]
+    if kind == "pseq":
+        # every construction is judged on its own: what was built before in the same process must not matter
+        fails = []
+        for i, (e, got) in enumerate(zip(case["elems"], ans.split("|"))):
+            for f in oracle({"kind": "port", "want": e["want"]}, got):
+                before = ", ".join(f"{x['proto']} {x['spec']!r}" for x in case["elems"][:i]) or "nothing"
+                fails.append(f"construction {i} ({e['proto']} {e['spec']!r}, after {before}): {f}")
+        return fails[:3]
+    if kind == "l4guard":
+        return [] if ans.startswith("err:") else [f"{case['g']}: a value of the wrong type was accepted"]
+    if kind == "tables":
+        if case["syntax"] == "asa":
+            return [] if ans == "ok" else [f"the asa tables are refused under syntax asa: {ans}"]
+        return [] if "ok" not in ans.split("/") else [f"the asa tables are served under syntax {case['syntax']}: {ans}"]
+    if kind == "l4pair":
+        wa, wb = case["a"]["want"], case["b"]["want"]
+
+        def known(w):
+            return isinstance(w, (list, tuple)) and w[0] == "set"
+        if wa == "reject" and not ans.startswith("err:"):
+            return [f"invalid port spec accepted: {ans[:40]}"]
+        if known(wa) and wb == "reject" and not ans.startswith("second:err:"):
+            return [f"invalid second port spec accepted: {ans[:40]}"]
+        if not (known(wa) and known(wb)):
+            return []
+        if not ans.startswith("ok|"):
+            return [f"two well-formed port specs, answer {ans[:40]}"]
+        f = ans.split("|")
+        same = case["a"]["proto"] == case["b"]["proto"] and wa[1] == wb[1]
+        fails = []
+        if f[1] != ("T" if same else "F"):
+            fails.append(f"== is {f[1]} for objects that denote {'the same' if same else 'different'} protocol/ports")
+        if f[2] == f[1]:
+            fails.append(f"== is {f[1]} and != is {f[2]}")
+        return fails
+    # groups: network_count is the length of the flattening; == is reflexive and the negation of !=; equal objects
+    # have equal hashes; objects of one config with equal flattenings have equal hash_children
+    desc = case["desc"]
+    by_line = sorted(desc["blocks"], key=lambda b: b["linenum"])
+    ordered = dict(desc)
+    ordered["blocks"] = by_line
+    ordered["names"] = sorted(desc["names"], key=lambda n: n["linenum"])
+    ref = ref_flatten(ordered)
+    f = ans.split("|")
+    counts = f[0].split(",") if f[0] else []
+    rows = [x.split(",") if x else [] for x in f[1:5]]
+    fails = []
+    if len(counts) != len(by_line):
+        return [f"{len(counts)} group objects, {len(by_line)} defined"]
+    for i, (b, r, c) in enumerate(zip(by_line, ref, counts)):
+        if r is None:
+            continue
+        if r[0] == "raise":
+            if not c.startswith("err:"):
+                fails.append(f"group {b['name']}: {r[1]} but network_count is {c}")
+        elif "~" in c:
+            fails.append(f"group {b['name']}: {c}")
+        elif c != str(len(r[1])):
+            fails.append(f"group {b['name']}: network_count {c}, the flattening has {len(r[1])} entries")
+    eq, ne, hs, hc = rows
+    for i in range(len(by_line)):
+        if eq[i][i] != "T" or ne[i][i] != "F":
+            fails.append(f"group object {i} is not equal to itself")
+        for j in range(len(eq[i])):
+            if eq[i][j] == ne[i][j]:
+                fails.append(f"== and != agree on objects {i},{j}")
+            if eq[i][j] == "T" and hs[i][j] != "T":
+                fails.append(f"equal objects {i},{j} with different hashes")
+        for j in range(len(by_line)):
+            ri, rj = ref[i], ref[j]
+            if ri and rj and ri[0] == "ok" and rj[0] == "ok":
+                want = "T" if ri[1] == rj[1] else "F"
+                if hc[i][j] != want:
+                    fails.append(f"hash_children of groups {i},{j} equal: {hc[i][j]}, flattenings equal: {want}")
+    return fails[:3]
+
+
 def oracle(case, ans):
+    if case["kind"] in ("l4pair", "l4guard", "tables", "groups", "pseq"):
+        return _oracle_x(case, ans)
     if case["kind"] == "port":
         want = case.get("want")
         if want is None:
